@@ -103,14 +103,18 @@ func attributeRefusalReported(w *World, r *Report, prop string) {
 		for _, b := range fn.Blocks {
 			all[b] = true
 		}
+		// (handed: as parameters of their own, or as members of a record the routine is handed or is a method of)
 		takesNode := false
-		for _, p := range fn.Params[min(1, len(fn.Params)):] {
-			if grammarCtxName(p.Type()) != "" {
+		for i, p := range fn.Params {
+			if i >= min(1, len(fn.Params)) && grammarCtxName(p.Type()) != "" {
+				takesNode = true
+			}
+			if recordCarriesNode(p.Type()) {
 				takesNode = true
 			}
 		}
 		for _, hv := range attrHolders(all, false) {
-			if _, isParam := hv.(*ssa.Parameter); isParam && takesNode {
+			if isCarriedField(hv) && takesNode {
 				scopes = append(scopes, scope{all, nil, hv})
 			}
 		}
@@ -135,7 +139,12 @@ func attributeRefusalReported(w *World, r *Report, prop string) {
 								continue
 							}
 							for _, a := range c.Common().Args {
-								if isFieldPtr(a.Type()) && canonField(a) == holder && reachesDiagnostic(g, map[*ssa.Function]bool{}, 0) {
+								handed := isFieldPtr(a.Type()) && canonField(a) == holder
+								// ... or the record that carries the field
+								if rp := recordParamOf(holder); rp != nil && stripIdentity(a) == ssa.Value(rp) {
+									handed = true
+								}
+								if handed && reachesDiagnostic(g, map[*ssa.Function]bool{}, 0) {
 									return true
 								}
 							}
@@ -208,6 +217,48 @@ func attributeRefusalReported(w *World, r *Report, prop string) {
 	} else if n == 0 {
 		r.fail(rule, "kind tests in an attribute loop found", "internal/parser/packet_dsl_parser.go", "no loop that decorates a declared field under tests of its kind found in the model visitor")
 	}
+}
+
+// recordCarriesNode: t is a record (or a pointer to one) with a member that is a parse-tree node.
+func recordCarriesNode(t types.Type) bool {
+	if pt, ok := t.Underlying().(*types.Pointer); ok {
+		t = pt.Elem()
+	}
+	st, ok := t.Underlying().(*types.Struct)
+	if !ok || grammarCtxName(t) != "" {
+		return false
+	}
+	for i := 0; i < st.NumFields(); i++ {
+		if grammarCtxName(st.Field(i).Type()) != "" {
+			return true
+		}
+	}
+	return false
+}
+
+// recordParamOf: the record parameter a carried field is a member of (nil: the field is a parameter of its own, or not carried).
+func recordParamOf(f ssa.Value) *ssa.Parameter {
+	switch x := f.(type) {
+	case *ssa.Field:
+		p, _ := x.X.(*ssa.Parameter)
+		return p
+	case *ssa.UnOp:
+		if fa, ok := x.X.(*ssa.FieldAddr); ok && x.Op == token.MUL {
+			switch b := fa.X.(type) {
+			case *ssa.Parameter:
+				return b
+			case *ssa.Alloc:
+				if b.Comment != "" {
+					for _, p := range b.Parent().Params {
+						if p.Name() == b.Comment {
+							return p
+						}
+					}
+				}
+			}
+		}
+	}
+	return nil
 }
 
 // reachesDiagnostic: g records a diagnostic, itself or in a subject function it calls.
